@@ -290,7 +290,7 @@ class Gen:
         s = rand_spec(self.r, a["n"], [g for g in self.gset if g != "BARRIER"] or ["X"])
         # form: one application, or the SAME gate object applied twice (what uncomputation and
         # appending one circuit twice produce), optionally with a barrier between / before
-        form = self.r.choice(["once", "once", "twice", "twice_barrier_between", "barrier_then_twice", "twice_first"])
+        form = self.r.choice(["once", "once", "twice", "twice_barrier_between", "barrier_then_twice", "twice_first", "thrice", "twice_two_barriers_between"])
         self.add("iadd_gate", {"target": a["id"], "gate": s, "form": form}, [a["id"]])
         return True
 
@@ -298,7 +298,7 @@ class Gen:
         a = self.pick()
         if a is None:
             return False
-        self.add("repeat", {"target": a["id"], "n": self.r.randint(1, 4)}, [a["id"]], {"n": a["n"], "enh": a["enh"]})
+        self.add("repeat", {"target": a["id"], "n": self.r.choice([1, 2, 2, 3, 3, 4, 5, 6])}, [a["id"]], {"n": a["n"], "enh": a["enh"]})
         return True
 
     def b_copy(self):
@@ -343,7 +343,7 @@ class Gen:
             return False
         r = self.r
         wl = r.sample(range(a["n"]), r.randint(1, a["n"]))
-        self.add("qft_iqft", {"target": a["id"], "wl": wl, "by_name": r.random() < 0.25}, [a["id"]])
+        self.add("qft_iqft", {"target": a["id"], "wl": wl, "by_name": r.random() < 0.25, "as_tuple": r.random() < 0.2}, [a["id"]])
         return True
 
     def b_opaque(self):
@@ -584,8 +584,14 @@ def run_segment(plan, ctx, detail=False, table=None):
                 if form != "once":
                     if form == "twice_barrier_between":
                         t.barrier()
+                    if form == "twice_two_barriers_between":
+                        t.barrier()
+                        t.barrier()
                     t += (go, list(s["w"]), s.get("p"))
                     new_model = apply(new_model, spec_matrix(s), s["w"], objs[tgt].num_qubits)
+                    if form == "thrice":
+                        t += (go, list(s["w"]), s.get("p"))
+                        new_model = apply(new_model, spec_matrix(s), s["w"], objs[tgt].num_qubits)
                     probe("same_gate_object_twice:" + form)
                     if s["g"] in ("S", "T", "P", "CP"):
                         probe("non_self_inverse_identical_pair")
@@ -617,8 +623,8 @@ def run_segment(plan, ctx, detail=False, table=None):
                         wl_ = [objs[tgt].get_key_by_index(i) for i in wl_]
                     except Exception:
                         wl_ = list(a["wl"])
-                objs[tgt].qft(list(wl_))
-                objs[tgt].iqft(list(wl_))
+                objs[tgt].qft(tuple(wl_) if a.get("as_tuple") else list(wl_))
+                objs[tgt].iqft(tuple(wl_) if a.get("as_tuple") else list(wl_))
                 new_model = model[tgt]
             elif k == "opaque":
                 mutated = tgt
